@@ -131,6 +131,12 @@ func RollWoD(src *rand.PCGSource, addLine IntType, pool IntType, points IntType,
 	allRollCount := pool
 	successCount := IntType(0)
 
+	if addLine == 0 && !isGE {
+		// q 形式(骰点 <= 阈值 算成功)下，成功数最少的是每个骰都取最大面、最多的是每个骰都取最小面，
+		// 与 k 形式正好相反；不加骰的骰池在最小/最大模式下应给出成功数的下界/上界
+		mode = -mode
+	}
+
 	for times := 0; times < addTimes; times++ {
 		addCount := IntType(0)
 		var detailsOne []string
